@@ -568,12 +568,11 @@ def ascii_dec_table(f, rule):
     b = f.thir[fn]
     then = None
     chname = None
-    for x in T.exprs(b["body"], "If"):
-        c = x["cond"]
-        if c.get("k") == "Let" and any(T.canon(T.callee_of(k)).endswith("Reader::eat") for k in T.calls(c["expr"])):
-            names = T.pat_names(c["pat"])
-            if names and T._variant_pat(c["pat"]) and T._variant_pat(c["pat"])[0] == "Ok":
-                then = x["then"]
+    for pat_, scrut_, then_ in T.iflet_sites(b["body"]):
+        if any(T.canon(T.callee_of(k)).endswith("Reader::eat") for k in T.calls(scrut_)):
+            names = T.pat_names(pat_)
+            if names and T._variant_pat(pat_) and T._variant_pat(pat_)[0] == "Ok":
+                then = then_
                 chname = names[0]
                 break
     need(then is not None, rule, fn, "(while let Ok(ch) = data.eat())")
